@@ -30,8 +30,8 @@ CONFIG = {
     "C05": dict(gen=[], drivers=["Json"]),
     "C06": dict(gen=[], drivers=["Json"]),
     "C07": dict(gen=["Formats"], drivers=["TextCodec"]),
-    "C08": dict(gen=[], drivers=["Store"]),
-    "C09": dict(gen=[], drivers=["Store"]),
+    "C08": dict(gen=["Schema"], drivers=["Store", "Schema"]),
+    "C09": dict(gen=["Schema"], drivers=["Store"]),
     "C10": dict(gen=["Models"], drivers=["ModelsF"], extra_prop_files=["PgVerif/Tie/Models.lean"]),
 }
 
